@@ -182,6 +182,8 @@ type Engine struct {
 	// Impure: calls whose result differs between invocations (l.next()); every
 	// evaluation gets its own number in the key.
 	Impure func(callee *types.Func) bool
+	// Alias maps the source name of a receiver/parameter to the name the rule's patterns use for that role.
+	Alias map[string]string
 	// TrackExpr names an expression node (slice, index, division) as an effect.
 	TrackExpr func(x ast.Expr) string
 	// Forward: a value stored into a field is what a later read of the same
@@ -1364,6 +1366,11 @@ func (e *Engine) key(v *env, x ast.Expr) string {
 		case *types.Var:
 			if o.Pkg() != nil && o.Parent() == o.Pkg().Scope() {
 				return o.Pkg().Name() + "." + o.Name()
+			}
+			// an unbound local (receiver, parameter, named result): printed under the rule's alias for it, so that the rule's
+			// patterns do not depend on what the source calls it
+			if a, ok := e.Alias[o.Name()]; ok && !o.IsField() {
+				return a
 			}
 		case *types.Func:
 			if o.Pkg() != nil {
